@@ -16,6 +16,7 @@ def regenerate(ck, needed):
     broken tie (recorded as broken obligation)."""
     import importlib
     import gen_all
+    ck.lock_package()        # regeneration + build + driver runs of this check are one critical section
     importlib.reload(gen_all)
     rep = gen_all.generate()
     ck.extra_cov["translator"] = {"changed_files": rep["changed"],
